@@ -3,6 +3,7 @@ package model
 import (
 	"fmt"
 	"os"
+	"strings"
 	"path/filepath"
 	"sort"
 	"sync"
@@ -10,6 +11,21 @@ import (
 	"verif/harness/smlab"
 	"verif/harness/vc"
 )
+
+// stopOnFirst (env MODEL_STOP_ON_FIRST=1) ends a campaign after the first
+// violation; used when validating seeded breaks, where only "does it fire"
+// matters. Never set in registered runs.
+var stopOnFirst = os.Getenv("MODEL_STOP_ON_FIRST") != ""
+
+// stopBaseline: signatures (comma separated in MODEL_STOP_ON_FIRST) that fire on
+// the unmodified tree too and therefore do not end a sensitivity run.
+var stopBaseline = func() map[string]bool {
+	m := map[string]bool{}
+	for _, s := range strings.Split(os.Getenv("MODEL_STOP_ON_FIRST"), ",") {
+		m[strings.TrimSpace(s)] = true
+	}
+	return m
+}()
 
 type storeCfg struct{ Engine, Policy string }
 
@@ -44,6 +60,18 @@ func newCampaign(c *vc.Ctx, check string, base RunCfg) *campaign {
 	return &campaign{c: c, check: check, base: base, stats: NewStats(), bySig: map[string]int{}, byStore: map[string]int64{}, shrinkMax: 400}
 }
 
+// newSig: has a signature outside the baseline list fired?
+func (cp *campaign) newSig() bool {
+	cp.mu.Lock()
+	defer cp.mu.Unlock()
+	for s := range cp.bySig {
+		if !stopBaseline[s] {
+			return true
+		}
+	}
+	return false
+}
+
 func (cp *campaign) dir(i int) string {
 	return filepath.Join(cp.c.Scratch, fmt.Sprintf("s%d", i))
 }
@@ -57,6 +85,9 @@ func (cp *campaign) cfgFor(spec caseSpec, dir string, st *Stats) RunCfg {
 // run executes n cases in parallel.
 func (cp *campaign) run(n int, gen func(i int) caseSpec) {
 	cp.c.ParallelFor(n, func(i int) {
+		if stopOnFirst && cp.newSig() {
+			return // sensitivity runs only (MODEL_STOP_ON_FIRST=1): the verdict is already "violated"
+		}
 		spec := gen(i)
 		if len(spec.Ops) == 0 {
 			return
